@@ -178,22 +178,59 @@ def spec_includes(repo):
     return ext
 
 
+def pickle_identity(repo):
+    """which attributes of a spec does ispec.__setstate__ use to find the hook again in module.ISPECS?
+    read from the test of the lookup loop: `h.format == self.format` -> 'format'; `h.hook.__name__` -> 'hookname'."""
+    f = repo.func("amoco/arch/core.py", "ispec.__setstate__")
+    g = repo.func("amoco/arch/core.py", "ispec.__getstate__")
+    ident, loop = [], None
+    for n in ast.walk(f.node):
+        if isinstance(n, ast.For) and norm(n.iter).endswith(".ISPECS") and isinstance(n.target, ast.Name):
+            loop = n
+    if loop is None:
+        raise AnalysisError("R-DUPFMT: ispec.__setstate__ has no lookup loop over <module>.ISPECS")
+    h = loop.target.id
+    tests = [norm(n.test) for n in ast.walk(loop) if isinstance(n, ast.If)]
+    txt = " ".join(tests)
+    if "%s.format" % h in txt:
+        ident.append("format")
+    if "%s.hook.__name__" % h in txt:
+        ident.append("hookname")
+    stored = {n.slice.value for n in ast.walk(g.node) if isinstance(n, ast.Subscript) and isinstance(n.ctx, ast.Store) and isinstance(n.slice, ast.Constant)}
+    return f, g, ident, stored, tests
+
+
 def r_dupfmt(repo, tier):
     out = RuleOut(
         "R-DUPFMT",
-        "inside one spec module two specs with the same expanded format string are attached to the same setup function "
-        "(ispec.__setstate__ finds the hook by format string, so a pickled instruction would be restored with another hook)",
+        "ispec.__setstate__ finds the setup function of an unpickled spec again by the identity it tests in its lookup loop over "
+        "<module>.ISPECS (read from the code: format string, and hook name when tested); __getstate__ stores every part of that identity; "
+        "inside one spec module no two specs with the same identity are attached to setup functions of different names "
+        "(else a pickled instruction is restored with another spec's hook, and the formatter key i.spec.hook.__name__ changes)",
     )
+    f, g, ident, stored, tests = pickle_identity(repo)
+    out.inst(f.key, {"identity": ident, "stored_by_getstate": sorted(stored), "lookup_tests": tests})
+    if "format" not in ident:
+        out.report(f.file, f.dqual, "lookup identity", f.node.lineno, "the lookup loop does not compare the format string")
+    need = {"format": "format", "hookname": "hook"}
+    for k in ident:
+        if need[k] not in stored:
+            out.report(g.file, g.dqual, "state key %r" % need[k], g.node.lineno, "__setstate__ identifies the spec by %s but __getstate__ does not store %r" % (k, need[k]))
+    if "module" not in stored:
+        out.report(g.file, g.dqual, "state key 'module'", g.node.lineno, "__getstate__ does not store the module of the hook")
     decls, _ = specs(repo)
     by = {}
     for s in decls:
-        by.setdefault((s.func.mod.name, s.format), []).append(s)
-    for (mod, fmt), lst in sorted(by.items()):
-        out.inst("%s::%s" % (mod, fmt), None, nontrivial=len(lst) > 1)
-        names = {s.func.name for s in lst}
-        if len(names) > 1:
+        k = (s.func.mod.name, s.format) + ((s.func.name,) if "hookname" in ident else ())
+        by.setdefault(k, []).append(s)
+    for k, lst in sorted(by.items()):
+        out.inst("::".join(k), None, nontrivial=len(lst) > 1)
+        # what a restored stub spec is used for afterwards is its hook *name* (the Formatter's table key): two specs
+        # that share the lookup identity must at least agree on that name
+        funcs = {s.func.name for s in lst}
+        if len(funcs) > 1:
             s = lst[-1]
-            out.report(s.func.file, "<module>", "dup %r" % fmt, s.line, "format shared by different setup functions %s" % sorted(names))
+            out.report(s.func.file, "<module>", "dup %r" % (k[1],), s.line, "lookup identity %s shared by setup functions of different names %s" % (ident, sorted(funcs)))
     return out
 
 
